@@ -7,9 +7,12 @@ CONSTANTS
   MaxCalls = 3
   Budget = 4
   AllowPop = TRUE
+  Cap = 0
+  AllowForce = FALSE
   SignalFixed = TRUE
   CloseBroadcasts = TRUE
   HelperLocked = TRUE
+  EvictKeepsItem = TRUE
 INVARIANTS TypeOK ShapeOK PointersOK YieldsArePushed InOrderNoSkip NoStuckIter ResultsOK NoLeak
 PROPERTIES Settles
 CHECK_DEADLOCK FALSE
